@@ -461,7 +461,7 @@ func runC10(r *rt.Run) {
 	}
 	r.Bounds["child_sequence_depth"] = map[string]int{"GeometryCollection/FeatureCollection (alphabet 10)": depth, "Multi* (alphabet 4)": mdepth}
 	r.Bounds["thresholds"] = "IndexChildren in {0, 1, n, n+1, 64} through Parse; constructor (64)"
-	r.Rule = "every child sequence up to the depth for the five collection kinds (alphabet: two points, two lines, two polygons, empty line, empty collection, nested collection, feature; duplicates occur as repeated letters), realised by constructor and by Parse under each child-index threshold; large families of 31..1025 children; probes: 28 objects of every kind incl. empties and nested collections x 3 predicates, ~170 query rectangles x every stop position; oracle = the statement evaluated over the real children; non-trivial = at least one non-empty child"
+	r.Rule = "every child sequence up to the depth for the five collection kinds (alphabet: two points, two lines, two polygons, empty line, empty collection, nested collection, feature; duplicates occur as repeated letters), realised by constructor and by Parse under each child-index threshold; large families of 31..1025 children (grid, cluster + outlier, duplicates, mixed with empty children, non-empty Multi* / nested / Feature children holding empty members); probes: 28 objects of every kind incl. empties and nested collections x 3 predicates, ~170 query rectangles x every stop position; oracle = the statement evaluated over the real children; non-trivial = at least one non-empty child"
 	r.Assume = []string{"leaf answers (child vs part) are taken from the real code: this check isolates wrapper / index logic", "within is checked for non-collection X; for collection X it is X's contains clause (duality)"}
 	probes := c10Probes()
 	r.Bounds["probes"] = len(probes)
@@ -504,9 +504,12 @@ func runC10(r *rt.Run) {
 		kind int
 	}
 	var fjobs []fjob
-	for _, f := range []string{"grid", "cluster", "duplicates", "mixed+empties"} {
+	for _, f := range []string{"grid", "cluster", "duplicates", "mixed+empties", "nested-empty-members"} {
 		for _, n := range sizes {
 			for kind := 0; kind < 2; kind++ {
+				if f == "nested-empty-members" && kind == 0 {
+					continue
+				}
 				fjobs = append(fjobs, fjob{f, n, kind})
 			}
 		}
@@ -555,6 +558,20 @@ func c10Family(fam string, n, kind int, probes []geojson.Object, w *rt.Worker, e
 			case fam == "mixed+empties" && i%5 == 0:
 				o = geojson.NewLineString(geometry.NewLine(nil, nil))
 				parseable = false
+			case fam == "nested-empty-members" && i%11 == 3:
+				// non-empty Multi* children that themselves hold an empty member (constructor-only)
+				o = geojson.NewMultiLineString([]*geometry.Line{geometry.NewLine([]geometry.Point{pt(i), pt(i + 1)}, nil), geometry.NewLine(nil, nil)})
+				parseable = false
+			case fam == "nested-empty-members" && i%11 == 7:
+				p := pt(i)
+				sq := geometry.NewPoly([]geometry.Point{p, gpt(p.X+0.125, p.Y), gpt(p.X+0.125, p.Y+0.125), p}, nil, nil)
+				o = geojson.NewMultiPolygon([]*geometry.Poly{sq, geometry.NewPoly(nil, nil, nil)})
+			case fam == "nested-empty-members" && i%13 == 5:
+				o = geojson.NewGeometryCollection([]geojson.Object{geojson.NewPoint(pt(i)), geojson.NewMultiLineString([]*geometry.Line{geometry.NewLine(pt2(pt(i), pt(i+2)), nil), geometry.NewLine(pt2(pt(i), pt(i))[:1], nil)})})
+			case fam == "nested-empty-members" && i%17 == 2:
+				p := pt(i)
+				sq := geometry.NewPoly([]geometry.Point{p, gpt(p.X+0.125, p.Y), gpt(p.X+0.125, p.Y+0.125), p}, nil, nil)
+				o = geojson.NewFeature(geojson.NewMultiPolygon([]*geometry.Poly{geometry.NewPoly([]geometry.Point{p, p}, nil, nil), sq}), `{"id":1}`)
 			case i%3 == 1:
 				o = geojson.NewLineString(geometry.NewLine([]geometry.Point{pt(i), pt(i + 1)}, nil))
 			default:
@@ -602,6 +619,8 @@ func c10Family(fam string, n, kind int, probes []geojson.Object, w *rt.Worker, e
 		}
 	}
 }
+
+func pt2(a, b geometry.Point) []geometry.Point { return []geometry.Point{a, b} }
 
 func evalC10(c *rt.Case) (bool, string, string, error) {
 	if c.Kind != "collection" {
